@@ -940,7 +940,8 @@ impl<'r> Renderer<'r> {
                     self.handles.insert(h.clone(), percent_decode(p));
                 }
                 if d.reserved_directive {
-                    lines.push("%FOO bar baz".to_string());
+                    // a reserved directive: any name of non-space characters, any parameters
+                    lines.push(self.r.pick(&["%FOO bar baz", "%FOO", "%FOO.BAR x", "%foo:bar baz", "%été x y", "%X-1_2 a", "%YAMLX 1.2", "%TAGS ! x"]).to_string());
                 }
                 // random order of YAML vs TAG lines
                 if lines.len() > 1 && self.r.chance(1, 2) {
